@@ -1,33 +1,105 @@
-#include <hgraph/lib/testing/runtime_support.h>
-#include <hgraph/lib/std/std_nodes.h>
-#include <hgraph/lib/std/std_operators.h>
-#include <hgraph/lib/std/operators/impl/operators_impl.h>
-#include <hgraph/runtime/runtime.h>
-#include <hgraph/types/graph_wiring.h>
-#include <hgraph/types/static_node.h>
+// hgsim: scenario interpreter over the hgraph C++ runtime compiled from /repo's working tree.
+//   hgsim            read one scenario from stdin, run it, print the event log (JSON lines) on stdout
+//   hgsim --server   fork server: scenarios separated by a line "END"; each runs in a forked child of the warmed-up
+//                    parent (same process history for every scenario); the parent prints {"k":"exit",...} after each.
+#include "common.h"
+
+#include <hgraph/lib/std/operators/registration.h>
+
+#include <sys/wait.h>
+#include <unistd.h>
+
+#include <csignal>
 #include <iostream>
-using namespace hgraph;
 
-struct Ticker {
-    static constexpr auto name = "ticker";
-    static constexpr bool schedule_on_start = true;
-    static void eval(NodeScheduler sched, Scalar<"count", Int> count, State<Int> n, Out<TS<Int>> out) {
-        out.set(n.get()); n.set(n.get()+1);
-        if (n.get() < count.value()) sched.schedule(MIN_TD*2);
+using namespace hv;
+
+static void on_crash(int sig)
+{
+    // best effort: keep what was logged so far
+    log_flush();
+    const char msg[] = "{\"k\":\"crash\"}\n";
+    (void)!::write(1, msg, sizeof msg - 1);
+    signal(sig, SIG_DFL);
+    raise(sig);
+}
+
+static int run_one(const std::string &text)
+{
+    Scenario sc;
+    try
+    {
+        sc = parse_scenario(text);
+        Line("hdr").str("mode", sc.mode).emit();
+        int rc;
+        if (sc.mode == "dataflow") rc = run_dataflow(sc);
+        else if (sc.mode == "collections") rc = run_collections(sc);
+        else if (sc.mode == "higher_order") rc = run_higher_order(sc);
+        else if (sc.mode == "threads") rc = run_threads(sc);
+        else throw std::invalid_argument("unknown mode '" + sc.mode + "'");
+        log_flush();
+        return rc;
     }
-};
-struct AddOne { static constexpr auto name="add_one"; static void eval(In<"in", TS<Int>> in, Out<TS<Int>> out){ out.set(in.value()+1);} };
-struct Print { static constexpr auto name="print"; static void eval(In<"in", TS<Int>> in, DateTime t){ std::cout << t.time_since_epoch().count() << " " << in.value() << "\n";} };
-struct G { static constexpr auto name="g"; static void compose(Wiring& w){ auto s = wire<Ticker>(w, Int{3}); wire<Print>(w, wire<AddOne>(w, s)); } };
+    catch (const std::exception &e)
+    {
+        Line("harness_error").str("what", e.what()).emit();
+        log_flush();
+        return 3;
+    }
+}
 
-struct Obs : LifecycleObserver {
-  void on_before_node_evaluation(const NodeView& n) override { std::cout << "eval node " << n.node_index() << " " << n.label() << "\n"; }
-};
-int main(){
-  stdlib::register_control_operators(); stdlib::register_higher_order_operators(); stdlib::register_arithmetic_operators(); stdlib::register_record_replay_memory_operators();
-  GraphBuilder gb = build_graph<G>();
-  Obs obs;
-  GraphExecutorBuilder eb; eb.graph_builder(std::move(gb)).start_time(MIN_ST).end_time(MIN_ST+TimeDelta{100}).add_lifecycle_observer(&obs);
-  auto ex = eb.make_executor(); ex.view().run();
-  std::cout << "done\n";
+static void warm_up()
+{
+    // Registration and function-local statics are initialised before any scenario (and before any simulated thread
+    // exists): a simulated thread pre-empted inside a static-init guard would block for real.
+    stdlib::register_standard_operators();
+    T0 = MIN_ST.time_since_epoch().count();
+    g_log_enabled = false;
+    const char *warm =
+        "mode dataflow\nwindow 0 6\nscript 1 0:1,2:2\nn1 = source id=1\nn2 = c1 n1 id=2\nn3 = accum n2 id=3\n"
+        "n4 = nested SgTimer n3 p=2 q=1 id=4\nrec 5 n4\n";
+    Scenario sc = parse_scenario(warm);
+    run_dataflow(sc);
+    reset_all_tables();
+    g_log_enabled = true;
+}
+
+int main(int argc, char **argv)
+{
+    signal(SIGSEGV, on_crash);
+    signal(SIGABRT, on_crash);
+    signal(SIGBUS, on_crash);
+    signal(SIGFPE, on_crash);
+    const bool server = argc > 1 && std::string(argv[1]) == "--server";
+    const bool nowarm = argc > 1 && std::string(argv[1]) == "--nowarm";
+    if (!server)
+    {
+        if (nowarm) { stdlib::register_standard_operators(); T0 = MIN_ST.time_since_epoch().count(); }
+        else warm_up();
+        std::string text((std::istreambuf_iterator<char>(std::cin)), std::istreambuf_iterator<char>());
+        return run_one(text);
+    }
+    warm_up();
+    {
+        const char ready[] = "{\"k\":\"ready\"}\n";
+        (void)!::write(1, ready, sizeof ready - 1);
+    }
+    std::string text, line;
+    while (std::getline(std::cin, line))
+    {
+        if (line != "END") { text += line; text += "\n"; continue; }
+        pid_t pid = fork();
+        if (pid == 0)
+        {
+            int rc = run_one(text);
+            _exit(rc);
+        }
+        int status = 0;
+        waitpid(pid, &status, 0);
+        Line l("exit");
+        l.i("status", WIFEXITED(status) ? WEXITSTATUS(status) : -1).i("signal", WIFSIGNALED(status) ? WTERMSIG(status) : 0).emit();
+        log_flush();
+        text.clear();
+    }
+    return 0;
 }
